@@ -106,7 +106,8 @@ def run(chk):
     n = compare(chk, res, "default", "unsafe_performance must not change any result")
     chk.stage("A:transcripts", pairs=n, recorders=[r[0] for r in RECORDERS])
     chk.cov["traces_validated_against_impl"] += n
-    chk.sample({"direction": "A", "transcript_head": read_ndjson(res["window"]["unsafe"])[:4]})
+    if res.get("window", {}).get("unsafe"):
+        chk.sample({"direction": "A", "transcript_head": read_ndjson(res["window"]["unsafe"])[:4]})
     chk.assumptions += ["calls on which the safe build panics are left out (the property's antecedent)",
                         "memory safety is claimed for the explored state space (model InBounds + conformance); Miri on the replays is an auxiliary monitor in the thorough tier"]
 import subprocess
